@@ -132,11 +132,19 @@ def _race_run(ctx):
     shutil.rmtree(cwd, ignore_errors=True)
     races = {}
     for chunk in se.split('WARNING: DATA RACE')[1:]:
-        prev = chunk.split('Previous ', 1)
-        part = prev[1] if len(prev) > 1 else chunk
-        m = re.search(r'com\.tuntun\.rangers/node/src/([\w/]+)\.([^\s(]*(?:\([^)]*\))?[\w.]*)\(\)', part)
-        fn = (m.group(1).split('/')[-1] + '.' + re.sub(r'[^\w.]', '', m.group(2))) if m else 'unknown'
-        races.setdefault(fn, chunk[:1800])
+        # stable key: the racing global when the detector names it, else the smallest of the two
+        # go-rangers functions on top of the two stacks (whichever access came first)
+        g = re.search(r"Location is global '([^']+)'", chunk)
+        if g:
+            fn = 'global-' + g.group(1).split('/')[-1]
+        else:
+            tops = []
+            for part in re.split(r'Previous ', chunk)[:2]:
+                m = re.search(r'com\.tuntun\.rangers/node/src/([\w/]+)\.([^\s(]*(?:\([^)]*\))?[\w.]*)\(\)', part)
+                if m:
+                    tops.append(m.group(1).split('/')[-1] + '.' + re.sub(r'[^\w.]', '', m.group(2)))
+            fn = min(tops) if tops else 'unknown'
+        races.setdefault(fn, chunk[:1800] + (' … ' + g.group(0) if g else ''))
     return dict(races=[dict(function=k, report=v) for k, v in sorted(races.items())], exit=rc)
 
 
